@@ -194,3 +194,9 @@ pub fn ma_specs(n: usize) -> Vec<Spec> {
         Spec::Echo,
     ]
 }
+
+/// smoothers that are not plain averages (they overshoot): admissible in EFT's slot, whose bound
+/// must hold whatever the smoother returns
+pub fn overshooting_ma_specs(n: usize) -> Vec<Spec> {
+    vec![Spec::leaf(Kind::SuperSmoother(n.max(1))), Spec::leaf(Kind::LagFilter(0.8125)), Spec::leaf(Kind::LagFilter(0.5))]
+}
